@@ -398,7 +398,9 @@ func canonicalTreeMode(mode filemode.FileMode) filemode.FileMode {
 	case 0o040000:
 		return filemode.Dir
 	case 0o100000:
-		if mode&0o111 != 0 {
+		// Only the owner's execute bit counts, as in upstream Git's
+		// canon_mode (ce_permissions): 0100611 is a regular file.
+		if mode&0o100 != 0 {
 			return filemode.Executable
 		}
 		return filemode.Regular
